@@ -40,7 +40,13 @@ def _(p):
     from formulaic import Formula, ModelSpec, model_matrix
     from formulaic.materializers import FormulaMaterializer
 
+    import pandas
+
     df = mc.full_frame(p["a"], p["b"])
+    if p.get("unused_level"):
+        # declared-but-unobserved levels (one before, one after the observed ones): names and numbers must still agree
+        df["A"] = pandas.Categorical(list(df["A"]), categories=["w"] + mc.A_LEVELS + ["zz"])
+        df["B"] = pandas.Categorical(list(df["B"]), categories=["t"] + mc.B_LEVELS)
     efr, formula = p["efr"], p["formula"]
     ref = model_matrix(formula, df, ensure_full_rank=efr, output="pandas")
     rl = list(ref.model_spec.column_names)
@@ -49,7 +55,8 @@ def _(p):
     try:
         import pyarrow
 
-        datas["arrow"] = pyarrow.Table.from_pandas(df.assign(A=df["A"].astype(str).astype(object), B=df["B"].astype(str).astype(object)), preserve_index=False)
+        if not p.get("unused_level"):
+            datas["arrow"] = pyarrow.Table.from_pandas(df.assign(A=df["A"].astype(str).astype(object), B=df["B"].astype(str).astype(object)), preserve_index=False)
     except Exception:
         pass
 
@@ -60,6 +67,8 @@ def _(p):
 
     for dname, data in datas.items():
         for mat in ((None, "narwhals") if dname == "pandas" else ("narwhals",)):
+            if p.get("mats") and (mat or "pandas") not in p["mats"]:
+                continue
             for out in ("pandas", "numpy", "sparse"):
                 if p.get("legs") == "sparse+arrow" and not (out == "sparse" or dname == "arrow"):
                     continue
